@@ -9,7 +9,7 @@ CONSTANTS
   MaxUniform = 1
   Periods = {100}
   Statuses <- StatusesAll
-  MaxOps = 7
+  MaxOps = 6
   MaxFaults = 1
   MaxData = 1
   MaxLate = 0
